@@ -81,6 +81,11 @@ hash (const void *font_key, const void *glyph_key)
 {
     size_t key = (size_t)font_key + (size_t)glyph_key;
 
+#if defined(FREEDESKTOP_PIXMAN_VERIF) && defined(PIXMAN_VERIF_GLYPH_HASH)
+    /* verification hook: let the checker substitute an arbitrary function of the key */
+    return PIXMAN_VERIF_GLYPH_HASH (key);
+#endif
+
     /* This hash function is based on one found on Thomas Wang's
      * web page at
      *
